@@ -359,7 +359,7 @@ impl Engine for E1 {
     }
 
     fn nontrivial_rule() -> &'static str {
-        "one case = (client configuration, sequence of 1..40 calls each choosing entry point, call form, value incl. Duration overflow boundary, tags/rate/timestamp/container, and the sink's answer per emit); distinct = distinct hash of the serialised case; non-trivial = at least 2 calls and, when the plan contains refusals, at least one refusal actually reached"
+        "one case = (client configuration, sequence of 1..24 (thorough: 1..40) calls each choosing entry point, call form, value incl. Duration overflow boundary, tags/rate/timestamp/container, and the sink's answer per emit); distinct = distinct hash of the serialised case; non-trivial = at least 2 calls and, when the plan contains refusals, at least one refusal actually reached"
     }
 
     fn is_fault_case(c: &SfCase) -> bool {
